@@ -44,3 +44,41 @@ Example C07_nonvacuous :
   reg_get 2 (fold_left gstep [(1, TPacket 1 [0;4;0;0] 1%Z); (2, TTick 5%Z); (1, TTick 9%Z)] [(1, a); (2, b)])
   = Some (fst (tick b 5%Z)).
 Proof. reflexivity. Qed.
+
+(* ---------------- the registry as a concurrent object (Registry/Model.v: small-step interleaving model) ---------------- *)
+From Coq Require Import Arith Lia.
+From NV Require Import Gen.Registry Registry.Model Registry.Inv Registry.ProofsLocal Registry.ProofsInv
+  Registry.Measure Registry.ProofsSafe Registry.Fair Registry.ProofsLive Registry.ProofsListener Registry.Proofs.
+Close Scope N_scope.
+Open Scope nat_scope.
+Open Scope list_scope.
+
+(* facts regenerated from tftpd.py on every run: digests of add / _remove / run / close / server_close, every access to _alive lexically under _lock, no shutdown() / _remove() reachable from a sub-server thread, poll and join constants *)
+Theorem C07_registry_source_facts :
+  registry_source_facts = true.
+Proof. exact Registry.Proofs.registry_source_facts_hold. Qed.
+Print Assumptions C07_registry_source_facts.
+
+(* CONCURRENT registry (listener thread in add, reaper thread in run, N sub-server threads; every interleaving at the granularity of one lock / dictionary / flag operation): the table of live transfers is touched and iterated only by the lock holder; the reaper never dies of KeyError or of a dictionary changing during iteration *)
+Theorem C07_registry_alive_only_under_lock :
+  registry_source_facts = true -> forall (adds : list nat) (cl : bool) (st : state) (i c : nat) (st' : state) (a : act), reachable adds cl st -> step st i c = Some (st', a) -> (dict_act a = true -> lockh st = Some i) /\ (dict_act a = false -> alive st' = alive st) /\ rp st' <> R_dead.
+Proof. exact Registry.Proofs.alive_only_under_lock. Qed.
+Print Assumptions C07_registry_alive_only_under_lock.
+
+(* in every reachable state some thread can move, or everything has terminated *)
+Theorem C07_registry_no_deadlock :
+  registry_source_facts = true -> forall (adds : list nat) (cl : bool) (st : state), reachable adds cl st -> terminatedb st = true \/ (exists (i : nat) (st' : state) (a : act), i < nthreads st /\ step st i 0 = Some (st', a)).
+Proof. exact Registry.Proofs.no_deadlock. Qed.
+Print Assumptions C07_registry_no_deadlock.
+
+(* the listening thread is blocked only for the rest of the lock holder s section: add completes after boundedly many fair rounds *)
+Theorem C07_registry_listener_progress :
+  registry_source_facts = true -> forall (adds : list nat) (cl : bool) (st : state), reachable adds cl st -> (forall (c : nat) (st' : state) (a : act), step st 0 c = Some (st', a) -> lam st' < lam st) /\ lam st <= 12 * List.length (ladds st) + 15 /\ (lp st <> L_end -> forall sch : sched, rounds (nthreads st) (S (phi6 st)) sch -> exists (pre suf : list (nat * nat)) (st' : state) (a : act), sch = pre ++ suf /\ step (run st pre) 0 0 = Some (st', a)).
+Proof. exact Registry.Proofs.listener_progress. Qed.
+Print Assumptions C07_registry_listener_progress.
+
+(* never two live transfers for one TID, never an entry overwritten without the old transfer being shut down, joined and closed *)
+Theorem C07_registry_add_replaces :
+  registry_source_facts = true -> forall (adds : list nat) (cl : bool) (st : state), reachable adds cl st -> NoDup (map fst (alive st)) /\ NoDup (map snd (alive st)) /\ (forall (c : nat) (st' : state) (tid s : nat), step st 0 c = Some (st', AStore tid s) -> lookup tid (alive st) = None /\ alive st' = alive st ++ [(tid, s)] /\ s = nadd st /\ (forall (u : nat) (x : sub), u < born st -> nth_error (subs st) u = Some x -> ~ In u (map snd (alive st)) -> sph x = Returned /\ sclosed x = true)) /\ (forall (r : rm) (c : nat) (st' : state) (a : act), lp st = L_rm r -> step st 0 c = Some (st', a) -> match lp st' with | L_rm r' => rm_tgt r' = rm_tgt r | L_store => exists x : sub, r = RmClose (rm_tgt r) /\ nth_error (subs st') (rm_tgt r) = Some x /\ sph x = Returned /\ sclosed x = true | _ => False end).
+Proof. exact Registry.Proofs.add_replaces. Qed.
+Print Assumptions C07_registry_add_replaces.
